@@ -99,7 +99,7 @@ def detect(sid, tier, props):
             t0 = time.time()
             e = dict(os.environ, AUDITOK_REPO=mut, VERIF_EVIDENCE_DIR=os.path.join(SCR, "evidence_" + sid))
             try:
-                r = subprocess.run([os.path.join(VERIF, "check"), p, tier], capture_output=True, text=True, env=e, timeout=3600)
+                r = subprocess.run([os.path.join(VERIF, "check"), p, tier], capture_output=True, text=True, env=e, timeout=(3600 if tier == "quick" else 10800))
                 viol = [l for l in r.stdout.splitlines() if l.startswith("VIOLATION")]
                 what = [l for l in r.stdout.splitlines() if l.startswith("# ")][:3]
                 res[p] = {"rc": r.returncode, "violations": len(viol), "detected": r.returncode == 1 and len(viol) > 0,
@@ -131,7 +131,7 @@ def benign(src, sid, tier, props):
             t0 = time.time()
             e = dict(os.environ, AUDITOK_REPO=mut, VERIF_EVIDENCE_DIR=os.path.join(SCR, "evidence_" + sid))
             try:
-                r = subprocess.run([os.path.join(VERIF, "check"), p, tier], capture_output=True, text=True, env=e, timeout=3600)
+                r = subprocess.run([os.path.join(VERIF, "check"), p, tier], capture_output=True, text=True, env=e, timeout=(3600 if tier == "quick" else 10800))
                 viol = [l for l in r.stdout.splitlines() if l.startswith("VIOLATION")]
                 what = [l for l in r.stdout.splitlines() if l.startswith("# ") or l.startswith("MACHINERY")][:3]
                 res[p] = {"rc": r.returncode, "violations": len(viol), "silent": r.returncode == 0 and not viol, "what": what,
